@@ -94,7 +94,7 @@ def run(ctx):
     vlib.run_bin("merge_driver", ["gated", "--seed", ctx.seed + 10, "--runs", 4 if ctx.quick else 40, "--only", "drop_during_merge_reload", "--out", zp], timeout=900)
     zev = vlib.read_ndjson(zp)
     zruns = [[vlib.strip_nulls(e) for e in r if e.get("ev") in c04.EVS] for r in vlib.split_runs(zev)]
-    zreal = sum(1 for e in zev if e.get("ev") == "schedule" and e.get("realised") and "zombie_registered_meanwhile" in e)
+    zreal = sum(1 for e in zev if e.get("ev") == "schedule" and e.get("realised") and "zombie_files_created_by_the_end" in e)
     n8 = tracecheck.validate_runs(ctx, zruns, "merge_zombie", "MergeTrace", "MergeTrace.cfg", key=lambda r: json.dumps(r[0].get("tag")), timeout=300)
     ctx.cov["traces_validated_against_impl"] += n8
     ctx.cov["gated_zombie_merge_vs_new_writer"] = {"runs": len(zruns), "realised": zreal, "accepted": n8}
